@@ -286,8 +286,45 @@ func c18() {
 			argv = append(argv, "-pkg", "profile")
 		}
 		argv = append(argv, target)
+		earlier := ""
+		if i%4 == 1 {
+			// a history: the same binary has been profiled before, in the same cache directory, with other lists (some of
+			// the discovered syscalls blacklisted, other names allowed); the judged run is what its own flags say
+			var bl0, al0 []string
+			for k, nr := range found {
+				if nm, ok := cx.table[nr]; ok && k%2 == 0 && len(bl0) < 4 {
+					bl0 = append(bl0, nm)
+				}
+			}
+			inFound := map[int]bool{}
+			for _, nr := range found {
+				inFound[nr] = true
+			}
+			var nrs []int
+			for nr := range cx.table {
+				nrs = append(nrs, nr)
+			}
+			sort.Ints(nrs)
+			for _, nr := range nrs {
+				if !inFound[nr] && !want[cx.table[nr]] && len(al0) < 3 && nr%7 == i%7 {
+					al0 = append(al0, cx.table[nr])
+				}
+			}
+			argv0 := []string{prof, "-format", "config"}
+			if len(bl0) > 0 {
+				argv0 = append(argv0, "-b", strings.Join(bl0, ","))
+			}
+			if len(al0) > 0 {
+				argv0 = append(argv0, "-allow", strings.Join(al0, ","))
+			}
+			argv0 = append(argv0, target)
+			if res0, err0 := th.Run(vlib.ToolRun{Argv: argv0, FakeMode: "emit", Listing: listing, Env: vlib.HostileEnvs[i%len(vlib.HostileEnvs)]}); err0 == nil && !res0.TimedOut {
+				earlier = fmt.Sprintf(" [after an earlier run on the same binary and cache with -b %v -allow %v, exit %d]", bl0, al0, res0.ExitCode)
+				run.Count("runs_after_an_earlier_run_with_other_lists", 1)
+			}
+		}
 		res, err := th.Run(vlib.ToolRun{Argv: argv, FakeMode: "emit", Listing: listing, Env: vlib.HostileEnvs[i%len(vlib.HostileEnvs)]})
-		desc := fmt.Sprintf("case %d: %s, discovered=%s (%d sites), -b %v, -allow %v, format=%s debug=%v out=%v", i, cx.name, shape, len(found), bl, al, format, debug, outFile != "")
+		desc := fmt.Sprintf("case %d: %s, discovered=%s (%d sites), -b %v, -allow %v, format=%s debug=%v out=%v%s", i, cx.name, shape, len(found), bl, al, format, debug, outFile != "", earlier)
 		if err != nil || res.TimedOut {
 			run.SoftInconclusive("profiler run failed: " + desc)
 			return
